@@ -7,9 +7,9 @@ from sym import SymExec, show
 import inventory
 from gram import reviewed_table
 
-ROOTS = ["oq3_lexer::tokenize", "oq3_parser::lexed_str::LexedStr::new", "oq3_parser::shortcuts::to_input", "oq3_parser::shortcuts::intersperse_trivia",
-         "oq3_parser::TopEntryPoint::parse", "oq3_syntax::parsing::parse_text", "oq3_syntax::parsing::parse_text_check_lex", "oq3_syntax::parse",
-         "oq3_syntax::parse_check_lex", "oq3_syntax::validation::validate"]
+ROOTS = ["oq3_lexer::tokenize", "oq3_parser::lexed_str::LexedStr::new", "oq3_parser::shortcuts::LexedStr::to_input", "oq3_parser::shortcuts::LexedStr::intersperse_trivia",
+         "oq3_parser::TopEntryPoint::parse", "oq3_syntax::parsing::parse_text", "oq3_syntax::parsing::parse_text_check_lex", "oq3_syntax::SourceFile::parse",
+         "oq3_syntax::SourceFile::parse_check_lex", "oq3_syntax::validation::validate"]
 BUMP = "oq3_lexer::cursor::Cursor::bump"
 
 # loops that are neither iterator-driven nor cursor-driven: (function, callee that must lie on every cycle, reason)
@@ -113,7 +113,7 @@ def run(prog, R):
     for comp in sccs_of(graph):
         R.ob("C01.0-recursion", "+".join(inventory.ishort(x) for x in comp)[:150], False, prog.body(comp[0]).at, f"recursion among non-grammar functions {comp}: needs a ranking argument")
     # ---------------- advance_token shape (shared with C14)
-    at_ = R.anchor(prog, "oq3_lexer::advance_token")
+    at_ = R.anchor(prog, "oq3_lexer::Cursor::advance_token")
     if at_:
         first_call = None
         for bi, t in at_.calls():
